@@ -1187,8 +1187,12 @@ func emit(cf *vx.CasesFile, st *vx.Stats, h *history, seed uint64, idx int) {
 }
 
 func main() {
+	if len(os.Args) >= 2 && os.Args[1] == "free" {
+		freeMain(os.Args[2:])
+		return
+	}
 	if len(os.Args) < 2 || os.Args[1] != "hist" {
-		vx.Die("usage: hx-c12a hist --n N --len L --seed S --out cases.v --stats stats.json")
+		vx.Die("usage: hx-c12a hist --n N --len L --seed S --out cases.v --stats stats.json | hx-c12a free --ms MS --seed S --stats stats.json")
 	}
 	fs := flag.NewFlagSet("hist", flag.ExitOnError)
 	n := fs.Int("n", 360, "")
